@@ -734,6 +734,14 @@ PSPUBLIC int32 psPkcs12ParseMem(psPool_t *pool, psX509Cert_t **cert, psPubKey_t 
 /*
     PKCS#5 PBKDF v1 and v2 key generation
  */
+/* Largest iteration count accepted from a PKCS #8 / PKCS #12 file. The count
+   is chosen by whoever produced the file; without a limit a 1 kB file can
+   keep the parser busy for hours (2^31 - 1 iterations). Common producers
+   use 1 ... 100000 (OpenSSL 2048, Java keytool 10000 - 50000). Define
+   PS_PBE_MAX_ITERATIONS in cryptoConfig.h to change the limit. */
+#  ifndef PS_PBE_MAX_ITERATIONS
+#   define PS_PBE_MAX_ITERATIONS 250000
+#  endif
 PSPUBLIC int32_t psPkcs5Pbkdf1(unsigned char *pass, uint32 passlen,
                                unsigned char *salt, int32 iter, unsigned char *key);
 PSPUBLIC void psPkcs5Pbkdf2(unsigned char *password, uint32 pLen,
